@@ -94,7 +94,8 @@ theorem upsert_level_counts (s : Side) (ls : List Level) (h : WSorted s ls) (new
 
 /-- "Construct a new sorted OrderBook … levels do not need to be pre-sorted": for **all** inputs the
 constructed sides hold exactly the given levels (a permutation: nothing dropped, nothing merged), in
-weak book order, with the given sequence and time. -/
+weak book order, with the given sequence and time. (The first two conjuncts — `sequence`, `time_engine`
+— are definitional, `rfl`; the content is the permutation and the order.) -/
 theorem new_any_input (seq : Nat) (te : Option Int) (bids asks : List Level) :
     let b := TBook.new seq te bids asks
     b.sequence = seq ∧ b.timeEngine = te ∧ b.bids.Perm bids ∧ b.asks.Perm asks ∧ WSortedBook b :=
@@ -109,13 +110,23 @@ theorem new_strict_iff_input_distinct (s : Side) (ls : List Level) :
   ⟨sorted_sortLevels_iff s ls, nonZero_sortLevels_iff s ls,
    fun _ => (sortLevels_perm s ls).countP_eq _⟩
 
-/-- What the model's stable sort stands for. With pairwise distinct prices *every* sorting
-algorithm gives the model's side; with duplicates the price sequence is still determined (only the
-order among equal-priced levels is the algorithm's choice). -/
+/-- How much of the constructed side is fixed by "a permutation of the input in price order" alone,
+whatever the sorting algorithm: with pairwise distinct prices the whole side; with repeated prices
+the price sequence (the order among equal-priced levels is then the algorithm's choice — the code's
+`sort_by` and the model's merge sort both make the *stable* choice, `new_sort_stable`). This was
+the justification of the model while the code called `sort_unstable_by`; with `sort_by` (/repo at
+`911b9f8`) it is no longer needed as an assumption. -/
 theorem new_sort_determined (s : Side) (ls l' : List Level) (hp : l'.Perm ls) (hs : WSorted s l') :
     l'.map Level.price = (sortLevels s ls).map Level.price ∧
     ((ls.map Level.price).Nodup → l' = sortLevels s ls) :=
   ⟨sortLevels_prices_unique hp hs, fun hn => sortLevels_unique_of_nodup hn hp hs⟩
+
+/-- The constructors' sort is **stable** (`slice::sort_by`, `books/mod.rs:154`, `:182`, is documented
+stable): for every price, the levels at that price appear in the constructed side in the order in
+which they were given — for all inputs, of any length. -/
+theorem new_sort_stable (s : Side) (ls : List Level) (p : Rat) :
+    (sortLevels s ls).filter (fun l => l.price == p) = ls.filter (fun l => l.price == p) :=
+  sortLevels_stable s ls p
 
 /-- Constructing again from the levels of a constructed side changes nothing. -/
 theorem new_idempotent (s : Side) (ls : List Level) : sortLevels s (sortLevels s ls) = sortLevels s ls :=
@@ -123,10 +134,12 @@ theorem new_idempotent (s : Side) (ls : List Level) : sortLevels s (sortLevels s
 
 /-! ## 4. dispatch on `Snapshot` / `Update`; `sequence` and `time_engine` -/
 
-/-- A snapshot replaces everything (all four fields). -/
+/-- Definitional / bookkeeping (`rfl`: the defining equations of `TBook.update`, restated for
+reference; not results). A snapshot replaces everything (all four fields). -/
 theorem update_snapshot (b s : TBook) : b.update (.snapshot s) = s := rfl
 
-/-- An update copies `sequence` and `time_engine` from the event and upserts both sides. -/
+/-- Definitional / bookkeeping (`rfl`). An update copies `sequence` and `time_engine` from the event
+and upserts both sides. -/
 theorem update_update (b u : TBook) :
     b.update (.update u) =
       ⟨u.sequence, u.timeEngine, upsertBS .bids b.bids u.bids, upsertBS .asks b.asks u.asks⟩ := rfl
@@ -200,6 +213,59 @@ theorem best_is_extremum (s : Side) (ls : List Level) (h : WSorted s ls) (l : Le
   · have := (List.pairwise_cons.mp h).1 x hx
     simpa [Side.le] using this
 
+/-! ## 6a. `volume_weighed_mid_price` and its `Decimal` division by zero
+
+`Rat` division is total (`x / 0 = 0`); `Decimal` division panics. `TBook.volumeWeightedMidPrice` is
+therefore the value of the call only under the guard `¬ b.vwMidPanics`; `TBook.vwMidChecked` is the
+observation with the panic made visible (`none`). -/
+
+/-- **When the call panics**: exactly when both sides are non-empty and the amounts of the two best
+levels sum to zero (the divisor of `volume_weighted_mid_price`, `books/mod.rs:309-312`). -/
+theorem vw_mid_panics_iff (b : TBook) :
+    b.vwMidPanics = true ↔
+      ∃ bb ba, best b.bids = some bb ∧ best b.asks = some ba ∧ bb.amount + ba.amount = 0 :=
+  vwMidPanics_iff b
+
+/-- Under the guard the value is a genuine quotient: the divisor is not zero and the result `v` is
+characterised without division, `v · (bid amount + ask amount) = bid price · ask amount + ask price ·
+bid amount` (each best price weighted with the opposite amount). -/
+theorem vw_mid_value (b : TBook) (bb ba : Level) (hb : best b.bids = some bb) (ha : best b.asks = some ba)
+    (hn : ¬ b.vwMidPanics) :
+    bb.amount + ba.amount ≠ 0 ∧
+    ∃ v, b.volumeWeightedMidPrice = some v ∧
+      v * (bb.amount + ba.amount) = bb.price * ba.amount + ba.price * bb.amount :=
+  vwMid_value hb ha (by simpa using hn)
+
+/-- The guard holds on every book whose amounts are positive (what the generators produce apart
+from zero amounts, and what an exchange sends): no reachable panic there. -/
+theorem vw_mid_safe_of_positive_amounts (b : TBook) (hb : ∀ l ∈ b.bids, 0 < l.amount)
+    (ha : ∀ l ∈ b.asks, 0 < l.amount) : ¬ b.vwMidPanics := by
+  simp [vwMidPanics_false_of_pos hb ha]
+
+/-- **Witness at the excluded point** (review A, C05M item 1; `corpus/C05M/A1_vw_mid_panic.ops`).
+`OrderBook::new(1, None, [(100, 1)], [(101, -1)])` is a *clean* book — distinct prices, no zero
+amount: inside the domain of `reachable_well_formed` and of C05's `WFBook` — on which the code panics
+(`Decimal` division by zero), while the unguarded equations hold with the value `some 0` on both
+sides (`x / 0 = 0` in `Rat`): without the guard, `spec_observables` would claim that the call returns
+0. Clean input does not exclude the panic (no generator produces negative amounts, which is why
+the sampled runs never saw it). -/
+theorem vw_mid_witness :
+    let bk : TBook := ⟨1, none, [⟨100, 1⟩], [⟨101, -1⟩]⟩
+    TBook.new 1 none [⟨100, 1⟩] [⟨101, -1⟩] = bk ∧
+    CleanInput bk.bids ∧ CleanInput bk.asks ∧ Reachable CleanInput bk ∧ WFBook bk.toCore ∧
+    bk.vwMidPanics = true ∧ bk.vwMidChecked = none ∧
+    bk.toCore.volumeWeightedMidPrice = some 0 ∧
+    (SCell.ofBook bk).spec?.map Spec.volumeWeightedMidPrice = some (some 0) ∧
+    (SCell.ofBook bk).spec?.map vwMidCheckedSpec = some none := by
+  have hnew : TBook.new 1 none [⟨100, 1⟩] [⟨101, -1⟩] = ⟨1, none, [⟨100, 1⟩], [⟨101, -1⟩]⟩ :=
+    new_eval (sortLevels_of_wsorted (by decide +kernel)) (sortLevels_of_wsorted (by decide +kernel))
+  have hcb : CleanInput [(⟨100, 1⟩ : Level)] := ⟨by decide +kernel, by unfold NonZero; decide +kernel⟩
+  have hca : CleanInput [(⟨101, -1⟩ : Level)] := ⟨by decide +kernel, by unfold NonZero; decide +kernel⟩
+  have hr : Reachable CleanInput (⟨1, none, [⟨100, 1⟩], [⟨101, -1⟩]⟩ : TBook) := by
+    rw [← hnew]; exact Reachable.new 1 none _ _ hcb hca
+  exact ⟨hnew, hcb, hca, hr, reachable_clean_wf hr, by decide +kernel, by decide +kernel, by decide +kernel,
+    by decide +kernel, by decide +kernel⟩
+
 /-! ## 7. `OrderBookMap` -/
 
 /-- `OrderBookMapSingle`: exactly one key, which resolves to its cell; every other key to nothing. -/
@@ -235,6 +301,21 @@ theorem keys_iff_find (m : BookMap) (k : Nat) : k ∈ m.keys ↔ (m.find k).isSo
     · have h' : ¬ k = k0 := fun e => h e.symm
       simp [h, h']
   | multi books => exact (lookup_isSome_iff_mem_keys books k).symm
+
+/-- **Refinement of the maps to the association log** (`AssocLog`: the `(key, cell)` associations in
+the order in which they were made, the last one for a key in force — what `drv_c05m spec` keeps and
+answers `find` / `keys` from, with no hash map on its side). `OrderBookMapSingle::new(k, c)`
+refines the one-entry log, `OrderBookMapMulti::new` of collected pairs refines the pairs, and
+`insert` refines appending; a map that refines a log resolves every key as the log does, and (having
+no repeated key, as every map built that way) lists the log's keys, up to order. -/
+theorem map_refines_log (pairs : List (Nat × Nat)) (books : List (Nat × Nat)) (log : AssocLog) (k c : Nat) :
+    MapRefines (.single k c) [(k, c)] ∧
+    MapRefines (multiOf pairs) pairs ∧
+    (MapRefines (.multi books) log → MapRefines ((BookMap.multi books).insert k c) (log ++ [(k, c)])) ∧
+    (∀ m, MapRefines m log → m.keys.Nodup → m.keys.Perm (AssocLog.keys log)) ∧
+    (AssocLog.keys log).Nodup ∧ (k ∈ AssocLog.keys log ↔ (AssocLog.find log k).isSome) :=
+  ⟨mapRefines_single k c, mapRefines_multiOf pairs, fun h => mapRefines_insert h k c,
+   fun _ h hn => h.keys_perm hn, AssocLog.keys_nodup log, AssocLog.mem_keys_iff_find log k⟩
 
 /-! ## 8. `OrderBookL2Manager::run` -/
 
@@ -289,7 +370,10 @@ theorem manager_keeps_invariants (m : BookMap) (heap : Heap) (stream : List TStr
   ⟨managerRun_wsorted, managerRun_wf⟩
 
 /-- In C05's domain each managed cell is the C05 model's `OrderBook.run` over the cell's events, so
-every C05 theorem (map refinement, `holds_exactly`, best = max / min, mid-prices) applies to it. -/
+every C05 theorem about that run (map refinement, `holds_exactly`, best = max / min, mid-price)
+applies to it. Not without a guard the volume-weighted mid-price: C05's equations for it are about
+the total `Rat` quotient and describe the code's call only where `¬ vwMidPanics` (section 6a;
+`vw_mid_witness` is a well-formed book where they hold and the code panics). -/
 theorem manager_cell_is_c05_run (m : BookMap) (heap : Heap) (stream : List TStreamEvent) (c : Nat) (b0 : TBook)
     (h0 : heap[c]? = some b0) (hb : SortedBook b0.toCore)
     (hs : ∀ k sn, TStreamEvent.item k (.snapshot sn) ∈ stream → SortedBook sn.toCore) :
@@ -306,15 +390,21 @@ theorem spec_of_new (seq : Nat) (te : Option Int) (bids asks : List Level) :
 
 /-- What the coupling gives for every observable: the copied fields; the price sequence of each
 side is the bag in book order; the best prices and the mid-price are those of the bags; and while
-the cell is clean the whole book, best levels, volume-weighted mid-price and every depth snapshot
-are those of the C05 map specification. -/
+the cell is clean the whole book, best levels and every depth snapshot are those of the C05 map
+specification (all unconditional). The volume-weighted mid-price: the call panics exactly when the
+specification's micro-price is undefined (`vwMidUndefined`, computed from the maps alone), the
+panic-aware observations agree (`vwMidChecked`: what both drivers print), and — under the explicit
+guard `¬ b.vwMidPanics`, without which the equation would hold by `x / 0 = 0` (`vw_mid_witness`) —
+the value is the specification's. -/
 theorem spec_observables (b : TBook) (c : SCell) (h : RefinesCell b c) :
     b.sequence = c.sequence ∧ b.timeEngine = c.timeEngine ∧
     b.bids.map Level.price = Bag.inOrder .bids c.bidPrices ∧
     b.asks.map Level.price = Bag.inOrder .asks c.askPrices ∧
     b.midPrice = c.midPrice ∧
     (∀ sp, c.spec? = some sp →
-      b.toCore = sp.book ∧ b.toCore.volumeWeightedMidPrice = sp.volumeWeightedMidPrice ∧
+      b.toCore = sp.book ∧
+      b.vwMidPanics = vwMidUndefined sp ∧ b.vwMidChecked = vwMidCheckedSpec sp ∧
+      (¬ b.vwMidPanics → b.toCore.volumeWeightedMidPrice = sp.volumeWeightedMidPrice) ∧
       best b.bids = PMap.best .bids sp.bids ∧ best b.asks = PMap.best .asks sp.asks ∧
       ∀ d, (b.snapshot d).toCore = sp.snapshot d) := by
   refine ⟨h.seq, h.time, h.bidPrices_eq, h.askPrices_eq, h.midPrice_eq, ?_⟩
@@ -327,7 +417,8 @@ theorem spec_observables (b : TBook) (c : SCell) (h : RefinesCell b c) :
     simp only [hm, Option.map_some, Option.some.injEq] at hsp
     subst hsp
     have hr := h.maps mb ma hm
-    refine ⟨hr.book_eq, hr.vwMidPrice_eq, ?_, ?_, fun d => ?_⟩
+    refine ⟨hr.book_eq, Refines.vwMidPanics_eq hr, Refines.vwMidChecked_eq hr, fun _ => hr.vwMidPrice_eq,
+      ?_, ?_, fun d => ?_⟩
     · have := hr.bids_eq
       simp only [best, PMap.best_eq_head hr.wfBids]
       rw [← this]; rfl
@@ -343,6 +434,15 @@ theorem manager_refines_spec (m : BookMap) (heap : Heap) (cells : List SCell) (s
     (h : HeapRefines heap cells)
     (hs : ∀ k sn, TStreamEvent.item k (.snapshot sn) ∈ stream → WSortedBook sn) :
     HeapRefines (managerRun m heap stream) (specRun m cells stream) := heapRefines_run h hs
+
+/-- … and the same with the key resolution of the specification taken from the association log
+instead of the concrete map: this is the run `drv_c05m spec` executes (`specRunBy (AssocLog.find log)`;
+its state holds the log, no `BookMap`). -/
+theorem manager_refines_log_spec (m : BookMap) (log : AssocLog) (heap : Heap) (cells : List SCell)
+    (stream : List TStreamEvent) (hm : MapRefines m log) (h : HeapRefines heap cells)
+    (hs : ∀ k sn, TStreamEvent.item k (.snapshot sn) ∈ stream → WSortedBook sn) :
+    HeapRefines (managerRun m heap stream) (specRunBy (AssocLog.find log) cells stream) := by
+  rw [← hm.specRun_eq]; exact heapRefines_run h hs
 
 /-- the coupling holds initially for any heap of constructed / default books -/
 theorem spec_initial (heap : Heap) (h : ∀ b ∈ heap, WSortedBook b) :
@@ -394,7 +494,8 @@ example : TBook.new 1 none [] [⟨101, 0⟩] = ⟨1, none, [], [⟨101, 0⟩]⟩
    by decide +kernel⟩
 
 /-- `volume_weighed_mid_price` divides by the sum of the best amounts: with two zero-amount best
-levels (possible only through such a constructor input) the `Decimal` division panics. -/
+levels (with non-negative amounts possible only through such a constructor input; with a negative
+amount also on a clean book, `vw_mid_witness`) the `Decimal` division panics. -/
 example : TBook.new 1 none [⟨100, 0⟩] [⟨101, 0⟩] = ⟨1, none, [⟨100, 0⟩], [⟨101, 0⟩]⟩ ∧
     (⟨1, none, [⟨100, 0⟩], [⟨101, 0⟩]⟩ : TBook).vwMidPanics = true :=
   ⟨new_eval (sortLevels_of_wsorted (by decide +kernel)) (sortLevels_of_wsorted (by decide +kernel)),
